@@ -141,6 +141,7 @@ Definition ent_of_arg (a : bytes) : bytes * ekind :=
   | 68%nat :: 58%nat :: n => (n, KDir)                  (* D: *)
   | 76%nat :: 70%nat :: 58%nat :: n => (n, KLinkFile)   (* LF: *)
   | 76%nat :: 68%nat :: 58%nat :: n => (n, KLinkDir)    (* LD: *)
+  | 76%nat :: 83%nat :: 58%nat :: n => (n, KLinkFile)   (* LS: link to a special file: not a directory *)
   | 76%nat :: 88%nat :: 58%nat :: n => (n, KLinkDangling) (* LX: *)
   | _ => (a, KFile)
   end.
